@@ -170,7 +170,15 @@ func WithHostname(hostname string) Option {
 // WithMounts sets the mounts.
 func WithMounts(mounts map[string]*Mount) Option {
 	return func(vos *VirtualOS) {
-		for k, v := range mounts {
+		// In the order of the keys: two keys that name one mount point
+		// ("/a" and "/a/") are then settled the same way every time
+		keys := make([]string, 0, len(mounts))
+		for k := range mounts {
+			keys = append(keys, k)
+		}
+		sort.Strings(keys)
+		for _, k := range keys {
+			v := mounts[k]
 			// The table is searched with cleaned paths: the mount point is
 			// cleaned as well ("/a/" is "/a"), and it is what the mount is
 			// known by, whatever the Target of the value says
